@@ -17,7 +17,7 @@ theorem effectRules_leafNormal (p : Prefs) (lv sl : Nat) : ∀ rs : List Rule,
       · exact effectRule_leafNormal p lv sl x
       · exact effectRules_leafNormal p lv sl rest r h
 
-theorem varText_resolved (p : Prefs) (hr : p.resolveVariables = true) (hs : allWs p.spacer = true) (il : Nat)
+theorem varText_resolved (p : Prefs) (hr : p.resolveVariables = true) (hs : allCssWs p.spacer = true) (il : Nat)
     (name v : Cps) (fb : EVal) (hn : name ≠ []) (hv : Plain v = true) : varText p il name (.obj v) fb = v := by
   have hne : v.isEmpty = false := by
     simp only [Plain, Bool.and_eq_true, Bool.not_eq_true'] at hv
@@ -25,11 +25,11 @@ theorem varText_resolved (p : Prefs) (hr : p.resolveVariables = true) (hs : allW
   have hn' : name.isEmpty = false := by cases name <;> simp at hn ⊢
   unfold varText
   simp only [hn', Bool.false_eq_true, if_false, EVal.aval, AVal.text, hr, hne, Bool.not_false, Bool.and_self, if_true]
-  rw [append_word p il [] v t_None hv (by decide) (by simp)]
+  rw [append_word p il [] v t_None hv (by decide) (by simp [lastPiece])]
   unfold gapPieces value
   by_cases he : p.spacer.isEmpty = true
   · have e : p.spacer = [] := by simpa using he
-    simp [e, removeLastIfS, allWs, isWs]
+    simp [e, removeLastIfS, allCssWs, isCssWs, allWs, isWs]
   · simp [he, removeLastIfS, hs]
 
 theorem numText_leading_zero (p : Prefs) (n : Num) :
